@@ -9,7 +9,7 @@ checks = {
  "C02": ("exploration", "same runs with dependency-heavy arrival orders and seeded pending-retry (map) order; every ack justified by model resolvability, held set (hook) equals the model's and contains nothing resolvable, no dangling references", "6 C02", "deterministic simulation: seeded arrival/retry orders + resolvability/completeness oracle"),
  "C03": ("exploration", "histories that create/retarget/delete/flush references followed by DELETE sweeps; DELETE verdict == model referrer count, reference counters (hook) == referrers after every step", "6 C03", "deterministic simulation: seeded histories + referrer-count oracle over verdicts and counters"),
  "C06": ("exploration", "per-stream result histories (FIB-ack on/off, hand-overs with held operations): one terminal verdict per id, FIB after RIB, no foreign ids, nothing unanswered at quiescence unless legitimately held", "6 C06", "deterministic simulation: recorded result history checked for exactly-once/ordering"),
- "C07": ("exploration", "payloads over every fluent-settable field; every (network instance|all) x (table|ALL) Get over the simulated stream compared field for field with the model, ALL == disjoint union, FromGetResponses round trip (payload space sampled)", "6 C07", "deterministic simulation: seeded payload/history generation + model equality on the streamed Get"),
+ "C07": ("exploration", "payloads over every fluent-settable field; every (network instance|all) x (table|ALL) Get over the simulated stream compared field for field with the model, ALL == disjoint union, FromGetResponses round trip; a Get that runs concurrently with modifications of the same instances must equal one state of each instance within the Get's duration (payload space sampled)", "6 C07", "deterministic simulation: seeded payload/history generation + model equality on the streamed Get"),
  "C08": ("exploration", "seeded RIB shapes x flush targets x election fields; model flush + specification status table; state, counters and follow-up operations compared afterwards", "6 C08", "deterministic simulation: seeded RIB shapes and request table vs model + spec decision table"),
  "C16": ("exploration", "servers with change hooks, network instances created before/after registration; fold(notifications) == model at every quiescent point; resolved-entry snapshots checked and scribbled over by delayed hook tasks", "6 C16", "deterministic simulation: seeded histories/configuration orders + folding oracle"),
 }
